@@ -1,6 +1,7 @@
 package lint
 
 import (
+	"go/constant"
 	"fmt"
 	"go/ast"
 	"go/token"
@@ -795,13 +796,54 @@ func (m *Model) ruleMEMURL(r *Results) {
 	const rule = "R-MEMURL"
 	n := 0
 	// modeCut: in g, the edges on which the parsed URL's mode parameter differs from "memory"
-	modeCut := func(g *ssa.Function) *cut {
+	var modeCut func(g *ssa.Function) *cut
+	// classifier: result idx of helper h is a boolean that has one constant value on every return
+	// h reaches without having found the mode different from "memory"; +1: that value is true
+	// ("true may mean memory, false means not memory"), -1: it is false
+	classifier := func(h *ssa.Function, idx int) int {
+		if h == nil || !m.inPkg(h) || h.Blocks == nil || !m.usesURLModeDirect(h) {
+			return 0
+		}
+		hc := modeCut(h)
+		if len(hc.edges) == 0 {
+			return 0
+		}
+		reach := entryReach(h, hc)
+		pol := 0
+		for _, ret := range returnsOf(h) {
+			if !reach[ret.Block().Index] || idx >= len(ret.Results) {
+				continue
+			}
+			k, ok := stripConv(ret.Results[idx]).(*ssa.Const)
+			if !ok || k.Value == nil || k.Value.Kind() != constant.Bool {
+				return 0
+			}
+			p := -1
+			if constant.BoolVal(k.Value) {
+				p = 1
+			}
+			if pol != 0 && pol != p {
+				return 0
+			}
+			pol = p
+		}
+		return pol
+	}
+	modeCut = func(g *ssa.Function) *cut {
 		c := newCut()
 		for _, d := range m.decisions(g, topFrame(g)) {
 			cd := d.C
 			// a predicate helper (`isMemoryMode(u)`), possibly kept in a local first
 			if cd.Op == token.ILLEGAL && cd.X != nil {
 				rv, _ := m.resolve(cd.X, topFrame(g))
+				if ex, ok := stripConv(rv).(*ssa.Extract); ok {
+					if call, ok := ex.Tuple.(*ssa.Call); ok {
+						if pol := classifier(call.Common().StaticCallee(), ex.Index); pol != 0 {
+							d.cutSucc(c, cd.succWhen(pol != 1))
+						}
+					}
+					continue
+				}
 				if call, ok := stripConv(rv).(*ssa.Call); ok {
 					if pol := m.modePredicate(call.Common().StaticCallee()); pol != 0 {
 						// pol=+1: true means "memory"
@@ -896,6 +938,25 @@ func isURLModeGet(v ssa.Value) bool {
 }
 
 func (m *Model) usesURLMode(fn *ssa.Function) bool {
+	found := m.usesURLModeDirect(fn)
+	for _, b := range fn.Blocks {
+		for _, ins := range b.Instrs {
+			// a classifier helper that looks at the mode and hands back a flag among its results
+			if c, ok := ins.(*ssa.Call); ok {
+				if h := c.Common().StaticCallee(); h != nil && m.inPkg(h) && h.Blocks != nil && h.Signature.Results().Len() > 1 && m.usesURLModeDirect(h) {
+					for i := 0; i < h.Signature.Results().Len(); i++ {
+						if b, ok := h.Signature.Results().At(i).Type().Underlying().(*types.Basic); ok && b.Kind() == types.Bool {
+							found = true
+						}
+					}
+				}
+			}
+		}
+	}
+	return found
+}
+
+func (m *Model) usesURLModeDirect(fn *ssa.Function) bool {
 	found := false
 	for _, b := range fn.Blocks {
 		for _, ins := range b.Instrs {
@@ -1484,6 +1545,97 @@ func (m *Model) ruleNILROW(r *Results) {
 	if n == 0 {
 		r.info(rule, "instances", "-", "no direct (*sql.Row).Scan outside the scan helper")
 	}
+	// A result set obtained together with an error is nil when the error is not: no method of it
+	// is called (or deferred) where the error may be non-nil.
+	nq := 0
+	for _, fn := range m.Funcs {
+		m.eachCall(fn, func(c ssa.CallInstruction) {
+			call, ok := c.(*ssa.Call)
+			if !ok {
+				return
+			}
+			tup, ok := call.Type().(*types.Tuple)
+			if !ok || tup.Len() != 2 || !isErrorType(tup.At(1).Type()) {
+				return
+			}
+			pt, ok := tup.At(0).Type().(*types.Pointer)
+			if !ok || !isNamed(pt.Elem(), "database/sql", "Rows") {
+				return
+			}
+			var rowsV, errV ssa.Value
+			for _, ref := range *call.Referrers() {
+				if ex, ok := ref.(*ssa.Extract); ok {
+					if ex.Index == 0 {
+						rowsV = ex
+					} else {
+						errV = ex
+					}
+				}
+			}
+			if rowsV == nil {
+				return
+			}
+			nq++
+			key := m.declName(fn) + " / result set used only where the query succeeded"
+			// values that are the result set: the extract, and loads of a variable it is kept in
+			isRows := map[ssa.Value]bool{rowsV: true}
+			isErr := map[ssa.Value]bool{}
+			if errV != nil {
+				isErr[errV] = true
+			}
+			for _, pair := range []struct {
+				v   ssa.Value
+				set map[ssa.Value]bool
+			}{{rowsV, isRows}, {errV, isErr}} {
+				if pair.v == nil {
+					continue
+				}
+				for _, ref := range *pair.v.Referrers() {
+					if st, ok := ref.(*ssa.Store); ok && st.Val == pair.v {
+						if al, ok := st.Addr.(*ssa.Alloc); ok {
+							for _, ld := range loadsReachedBy(st, al) {
+								pair.set[ld] = true
+							}
+						}
+					}
+				}
+			}
+			cu := newCut()
+			for _, iff := range allIfs(fn) {
+				bo, ok := stripConv(iff.Cond).(*ssa.BinOp)
+				if !ok || (bo.Op != token.EQL && bo.Op != token.NEQ) {
+					continue
+				}
+				if !(isErr[stripConv(bo.X)] && isNilConst(bo.Y) || isErr[stripConv(bo.Y)] && isNilConst(bo.X)) {
+					continue
+				}
+				// cut the edge on which the error is nil
+				if bo.Op == token.EQL {
+					cu.cutEdge(iff.Block(), iff.Block().Succs[0])
+				} else {
+					cu.cutEdge(iff.Block(), iff.Block().Succs[1])
+				}
+			}
+			reach := reachableFromSuccs(call.Block(), cu)
+			bad := ""
+			for _, b := range fn.Blocks {
+				for i, ins := range b.Instrs {
+					u, ok := ins.(ssa.CallInstruction)
+					if !ok || u.Common().IsInvoke() || len(u.Common().Args) == 0 || !isRows[stripConv(u.Common().Args[0])] {
+						continue
+					}
+					if f := u.Common().StaticCallee(); f == nil || f.Signature.Recv() == nil {
+						continue
+					}
+					if b == call.Block() && i > indexIn(b, call) || reach[b.Index] {
+						bad = m.instrPos(u)
+					}
+				}
+			}
+			r.check(bad == "", rule, key, m.instrPos(call), "every method call on the result set lies behind the test that the query's error is nil", "a method of the result set is called (or deferred) at "+bad+" where the query may have failed: the result set is nil then (a closed bucket's handle fails every query), and the call is a nil-pointer panic instead of the error")
+		})
+	}
+	r.ok(rule, "queries", "-", "%d multi-row query call(s)", nq)
 }
 
 // sameMapValue: the same SSA value, or two loads of the same variable.
@@ -1549,4 +1701,34 @@ func helperErrsNotMissing(call *ssa.Call, idx int, depth int) bool {
 		}
 	}
 	return len(rets) > 0
+}
+
+// loadsReachedBy: the loads of cell that see the value written by st (no other store to the
+// cell in this function lies between).
+func loadsReachedBy(st *ssa.Store, cell ssa.Value) []ssa.Value {
+	var out []ssa.Value
+	seen := map[int]bool{}
+	var walk func(b *ssa.BasicBlock, from int)
+	walk = func(b *ssa.BasicBlock, from int) {
+		for _, ins := range b.Instrs[from:] {
+			switch x := ins.(type) {
+			case *ssa.Store:
+				if x.Addr == cell {
+					return
+				}
+			case *ssa.UnOp:
+				if x.Op == token.MUL && x.X == cell {
+					out = append(out, x)
+				}
+			}
+		}
+		for _, s := range b.Succs {
+			if !seen[s.Index] {
+				seen[s.Index] = true
+				walk(s, 0)
+			}
+		}
+	}
+	walk(st.Block(), indexIn(st.Block(), st)+1)
+	return out
 }
